@@ -61,7 +61,7 @@ def lean_str(s):
         elif ch == '\t':
             out.append('\\t')
         elif ord(ch) < 32 or ord(ch) > 126:
-            out.append('\\u{%x}' % ord(ch))
+            out.append('\\u%04x' % ord(ch) if ord(ch) < 0x10000 else ch)
         else:
             out.append(ch)
     out.append('"')
@@ -698,6 +698,271 @@ def flag_facts(src_root):
         return {k: 'probe-failed:%s' % str(e)[:160] for k in keys}
 
 
+PROBE_TABLE = r"""
+import json, re, sys, warnings
+warnings.simplefilter('ignore')
+from zope.interface import Interface
+from zope.interface.interface import InterfaceClass
+from pyramid.config import Configurator
+from pyramid.registry import Deferred, undefer
+
+import os, pyramid
+SRC = os.path.dirname(os.path.dirname(os.path.abspath(pyramid.__file__)))
+SENT, SENTSTR = {}, {}
+KEEP = []
+
+def reg(obj, p):
+    SENT[id(obj)] = p; KEEP.append(obj); return obj
+def fn(p):
+    def f(*a, **k): return None
+    f.__name__ = f.__qualname__ = p
+    return reg(f, p)
+def view(p):
+    def v(context, request): return {}
+    v.__name__ = v.__qualname__ = p
+    return reg(v, p)
+def deco(p):
+    def d(v): return v
+    return reg(d, p)
+def cls(p): return reg(type(p, (), {}), p)
+def viewcls(p): return reg(type(p, (), {'__init__': lambda self, request: None, 'zz_attr_meth': lambda self: {}}), p)
+def exc(p): return reg(type(p, (Exception,), {}), p)
+def iface(p): return reg(InterfaceClass(p), p)
+def inst(p): return reg(type(p, (), {})(), p)
+def mapper(p):
+    class M:
+        def __init__(self, **kw): pass
+        def __call__(self, view): return view
+    M.__name__ = p
+    return reg(M, p)
+def deriver(p, options=()):
+    def d(view, info): return view
+    d.__name__ = d.__qualname__ = p; d.options = options
+    return reg(d, p)
+def s(p, text=None):
+    text = text if text is not None else 'S_' + p
+    SENTSTR[text] = p
+    return text
+
+def sym(v, depth=0):
+    if isinstance(v, Deferred):
+        v = undefer(v)
+    if id(v) in SENT and not isinstance(v, (str, int, bool, type(None))):
+        return '$' + SENT[id(v)]
+    if v is None or isinstance(v, bool):
+        return repr(v)
+    if isinstance(v, int):
+        for o in KEEP:
+            if id(o) == v:
+                return 'id($%s)' % SENT[id(o)]
+        return repr(v)
+    if isinstance(v, str):
+        if v in SENTSTR:
+            return '$' + SENTSTR[v]
+        if re.fullmatch(r'[0-9a-f]{64}', v):
+            return '<phash>'
+        out = v.replace(SRC, '<src>')
+        for text in sorted(SENTSTR, key=len, reverse=True):
+            out = out.replace(text, '${%s}' % SENTSTR[text])
+        out = re.sub(r'0x[0-9a-f]+', '0x..', out)
+        return repr(out)
+    if isinstance(v, tuple):
+        return '(' + ', '.join(sym(x) for x in v) + (',' if len(v) == 1 else '') + ')'
+    if isinstance(v, list):
+        return '[' + ', '.join(sym(x) for x in v) + ']'
+    if isinstance(v, dict):
+        return '{' + ', '.join('%s: %s' % (sym(k), sym(x)) for k, x in sorted(v.items(), key=lambda kv: str(kv[0]))) + '}'
+    if isinstance(v, InterfaceClass) or isinstance(v, type):
+        return '<%s>' % getattr(v, '__name__', type(v).__name__)
+    if type(v).__name__ == 'RendererHelper':
+        return '<RendererHelper name=%s type=%s>' % (sym(v.name), sym(v.type))
+    if type(v).__name__ == 'DefaultCSRFOptions':
+        return '<DefaultCSRFOptions>'
+    if callable(v) and hasattr(v, '__name__'):
+        mod = getattr(v, '__module__', '') or ''
+        return '<function %s>' % re.sub(r'0x[0-9a-f]+', '0x..', v.__name__) if mod.startswith('pyramid') else '<callable>'
+    return '<%s>' % type(v).__name__
+
+def tween_a(handler, registry): return handler
+sys.modules['c20probe'] = type(sys)('c20probe'); sys.modules['c20probe'].tween_a = tween_a; sys.modules['c20probe'].target = fn('dotted_target')
+
+CALLS = []
+def call(_n, _d, mk):
+    CALLS.append((_n, _d, mk))
+
+# ---- the probe calls: every directive that builds introspectables, every branch that changes what is recorded ----
+call('add_subscriber/one-iface', 'add_subscriber', lambda: dict(subscriber=fn('subscriber'), iface=iface('iface')))
+call('add_subscriber/default-iface', 'add_subscriber', lambda: dict(subscriber=fn('subscriber')))
+call('add_subscriber/two-ifaces', 'add_subscriber', lambda: dict(subscriber=fn('subscriber'), iface=(iface('iface0'), iface('iface1'))))
+call('add_response_adapter', 'add_response_adapter', lambda: dict(adapter=fn('adapter'), type_or_iface=cls('type_or_iface')))
+call('add_traverser', 'add_traverser', lambda: dict(adapter=cls('adapter'), iface=iface('iface')))
+call('add_traverser/default', 'add_traverser', lambda: dict(adapter=cls('adapter')))
+call('add_resource_url_adapter', 'add_resource_url_adapter', lambda: dict(adapter=cls('adapter'), resource_iface=iface('resource_iface')))
+call('override_asset', 'override_asset', lambda: dict(to_override=s('to_override', 'pyramid:config/'), override_with=s('override_with', 'pyramid.scripts:'), _override=fn('_override')))
+call('set_root_factory', 'set_root_factory', lambda: dict(factory=fn('factory')))
+call('set_root_factory/none', 'set_root_factory', lambda: dict(factory=None))
+call('set_session_factory', 'set_session_factory', lambda: dict(factory=fn('factory')))
+call('set_request_factory', 'set_request_factory', lambda: dict(factory=fn('factory')))
+call('set_response_factory', 'set_response_factory', lambda: dict(factory=fn('factory')))
+call('set_request_factory/dotted', 'set_request_factory', lambda: dict(factory='c20probe.target'))
+call('add_request_method/method', 'add_request_method', lambda: dict(callable=fn('callable'), name=s('name', 'rm_name')))
+call('add_request_method/property', 'add_request_method', lambda: dict(callable=fn('callable'), name=s('name', 'rm_name'), property=True))
+call('add_request_method/reify', 'add_request_method', lambda: dict(callable=fn('callable'), name=s('name', 'rm_name'), reify=True))
+call('add_request_method/no-name', 'add_request_method', lambda: dict(callable=fn('callable')))
+call('set_execution_policy', 'set_execution_policy', lambda: dict(policy=fn('policy')))
+call('set_locale_negotiator', 'set_locale_negotiator', lambda: dict(negotiator=fn('negotiator')))
+call('add_translation_dirs/two', 'add_translation_dirs', lambda: dict(pos=(s('specs0', 'pyramid:config/'), s('specs1', 'pyramid:scripts'))))
+call('add_translation_dirs/override', 'add_translation_dirs', lambda: dict(pos=(s('specs0', 'pyramid:config/'), s('specs1', 'pyramid:scripts')), override=True))
+call('add_view_predicate', 'add_view_predicate', lambda: dict(name=s('name', 'pred_name'), factory=fn('factory'), weighs_more_than=s('weighs_more_than', 'xhr'), weighs_less_than=s('weighs_less_than', 'request_method')))
+call('add_route_predicate', 'add_route_predicate', lambda: dict(name=s('name', 'pred_name'), factory=fn('factory'), weighs_more_than=s('weighs_more_than', 'xhr')))
+call('add_subscriber_predicate', 'add_subscriber_predicate', lambda: dict(name=s('name', 'pred_name'), factory=fn('factory')))
+call('add_renderer', 'add_renderer', lambda: dict(name=s('name', '.rname'), factory=fn('factory')))
+call('add_renderer/default', 'add_renderer', lambda: dict(name=None, factory=fn('factory')))
+call('add_route/all-options', 'add_route', lambda: dict(name=s('name', 'route_name_x'), pattern=s('pattern', '/pat/{x}'), factory=fn('factory'), header=s('header', 'X-Hdr:val'), xhr=True,
+     accept=s('accept', 'text/x-accept'), path_info=s('path_info', '/pinfo'), request_method=(s('request_method1', 'PUT'), s('request_method0', 'GET')), request_param=s('request_param', 'rparam'),
+     traverse=s('traverse', '/trav'), use_global_views=True, pregenerator=fn('pregenerator'), static=False))
+call('add_route/minimal', 'add_route', lambda: dict(name=s('name', 'route_name_x'), pattern=s('pattern', '/pat/{x}')))
+call('add_route/path-static', 'add_route', lambda: dict(name=s('name', 'route_name_x'), path=s('path', '/pth/{x}'), static=True, request_method=s('request_method', 'POST'), accept=s('accept', 'Text/X-Accept')))
+call('add_route/external', 'add_route', lambda: dict(name=s('name', 'route_name_x'), pattern=s('pattern', 'https://ext.example.com/e/{y}'), pregenerator=fn('pregenerator')))
+call('add_route/prefixed', 'add_route', lambda: dict(setup=('prefix',), name=s('name', 'route_name_x'), pattern=s('pattern', '/pat/{x}')))
+call('set_security_policy', 'set_security_policy', lambda: dict(policy=inst('policy')))
+call('set_authentication_policy', 'set_authentication_policy', lambda: dict(setup=('authz',), policy=inst('policy')))
+call('set_authorization_policy', 'set_authorization_policy', lambda: dict(setup=('authn',), policy=inst('policy')))
+call('set_default_permission', 'set_default_permission', lambda: dict(permission=s('permission', 'perm_x')))
+call('add_permission', 'add_permission', lambda: dict(permission_name=s('permission_name', 'perm_x')))
+call('set_default_csrf_options/a', 'set_default_csrf_options', lambda: dict(require_csrf=False, token=s('token', 'tok_x'), header=s('header', 'X-Tok'), safe_methods=(s('safe_methods1', 'TRACE'), s('safe_methods0', 'GET')),
+     check_origin=True, allow_no_origin=False, callback=fn('callback')))
+call('set_default_csrf_options/b', 'set_default_csrf_options', lambda: dict(require_csrf=True, token=s('token', 'tok_x'), header=s('header', 'X-Tok'), safe_methods=(s('safe_methods0', 'GET'),),
+     check_origin=False, allow_no_origin=True))
+call('set_csrf_storage_policy', 'set_csrf_storage_policy', lambda: dict(policy=inst('policy')))
+call('add_tween', 'add_tween', lambda: dict(tween_factory=s('tween_factory', 'c20probe.tween_a'), under=(s('under0', 'INGRESS'), s('under1', 'pyramid.tweens.excview_tween_factory')), over=s('over', 'MAIN')))
+call('add_tween/minimal', 'add_tween', lambda: dict(tween_factory=s('tween_factory', 'c20probe.tween_a')))
+call('add_view/all-options', 'add_view', lambda: dict(setup=('route', 'renderer.xyz', 'deriver'), view=view('view'), name=s('name', 'vname'), permission=s('permission', 'perm_x'), route_name=s('route_name', 'route_name_x'),
+     request_method=(s('request_method0', 'GET'), s('request_method1', 'POST')), request_param=s('request_param', 'rparam'), containment=cls('containment'), xhr=True,
+     accept=s('accept', 'Text/X-Accept'), header=s('header', 'X-Hdr'), path_info=s('path_info', '/pinfo'), context=cls('context'), decorator=deco('decorator'), mapper=mapper('mapper'),
+     http_cache=s('http_cache', 4242) if False else 4242, match_param=s('match_param', 'mp=1'), require_csrf=True, renderer=s('renderer', 'tpl.xyz'), zopt=s('zopt', 'zval')))
+call('add_view/minimal', 'add_view', lambda: dict(view=view('view')))
+call('add_view/for_', 'add_view', lambda: dict(view=view('view'), for_=cls('for_'), renderer=s('renderer', 'json')))
+call('add_view/no-view-template', 'add_view', lambda: dict(renderer=s('renderer', 'tpl.pt'), name=s('name', 'vname')))
+call('add_view/class-attr', 'add_view', lambda: dict(view=viewcls('view'), attr=s('attr', 'zz_attr_meth'), permission=s('permission', 'perm_x')))
+call('add_view/exception-only', 'add_view', lambda: dict(view=view('view'), context=exc('context'), exception_only=True))
+call('add_accept_view_order', 'add_accept_view_order', lambda: dict(value=s('value', 'Text/X-Value'), weighs_more_than=[s('weighs_more_than0', 'Text/HTML'), s('weighs_more_than1', 'application/json')], weighs_less_than=s('weighs_less_than', 'text/plain')))
+call('add_accept_view_order/minimal', 'add_accept_view_order', lambda: dict(value=s('value', 'Text/X-Value')))
+call('add_view_deriver/all', 'add_view_deriver', lambda: dict(deriver=deriver('deriver'), name=s('name', 'dname'), under=(s('under1', 'http_cached_view'), s('under0', 'decorated_view')), over=s('over', 'rendered_view')))
+call('add_view_deriver/defaults', 'add_view_deriver', lambda: dict(deriver=deriver('deriver')))
+call('set_view_mapper', 'set_view_mapper', lambda: dict(mapper=mapper('mapper')))
+call('add_static_view', 'add_static_view', lambda: dict(name=s('name', 'static_x'), path=s('path', 'pyramid:config')))
+call('add_static_view/slash-prefixed', 'add_static_view', lambda: dict(setup=('prefix',), name=s('name', 'static_x/'), path=s('path', 'pyramid:config/')))
+call('add_cache_buster', 'add_cache_buster', lambda: dict(path=s('path', 'pyramid:config'), cachebust=fn('cachebust'), explicit=True))
+call('add_cache_buster/default', 'add_cache_buster', lambda: dict(path=s('path', 'pyramid:config/'), cachebust=fn('cachebust')))
+
+def run_call(name, directive, mk):
+    SENT.clear(); SENTSTR.clear(); del KEEP[:]
+    sys.modules['c20probe'].target = fn('dotted_target')
+    kw = mk()
+    setup = kw.pop('setup', ())
+    pos = kw.pop('pos', ())
+    cfg = Configurator()
+    cfg.commit()
+    target = cfg
+    for st in setup:
+        if st == 'route':
+            cfg.add_route('route_name_x', '/setup-route')
+        elif st == 'renderer.xyz':
+            cfg.add_renderer('.xyz', lambda info: None)
+        elif st == 'deriver':
+            cfg.add_view_deriver(deriver('setup_deriver', ('zopt',)), name='zderiver')
+        elif st == 'authz':
+            cfg.set_authorization_policy(object())
+        elif st == 'authn':
+            cfg.set_authentication_policy(object())
+        elif st == 'prefix':
+            holder = []
+            def inc(c): holder.append(c)
+            cfg.include(inc, route_prefix=s('route_prefix', '/rprefix'))
+            target = holder[0]
+    if any(st in ('route', 'renderer.xyz', 'deriver') for st in setup):
+        cfg.commit()
+    state = cfg.action_state
+    before = len(state.actions)
+    code = compile('getattr(cfg, name)(*pos, **kw)', '<c20-probe>', 'exec')
+    exec(code, {'cfg': target, 'name': directive, 'pos': pos, 'kw': kw})
+    acts = list(state.actions[before:])
+    try:
+        cfg.commit()
+        committed = 'ok'
+    except Exception as e:
+        committed = 'commit-failed:%s' % type(e).__name__
+    intros, index = [], {}
+    for a in acts:
+        for i in a.get('introspectables', ()):
+            if id(i) not in index:
+                index[id(i)] = len(intros); intros.append(i)
+    rec = {'name': name, 'directive': directive, 'commit': committed, 'actions': [], 'intros': []}
+    for a in acts:
+        info = a['info']
+        ok = getattr(info, 'file', None) == '<c20-probe>' and getattr(info, 'line', None) == 1
+        rec['actions'].append([sym(a['discriminator']), str(a['order'] or 0), bool(ok), [index[id(i)] for i in a.get('introspectables', ())]])
+    for i in intros:
+        rec['intros'].append({'category': i.category_name, 'discr': sym(i.discriminator), 'title': sym(i.title), 'typeName': i.type_name,
+                              'keys': sorted([k, sym(v)] for k, v in i.items()),
+                              'rels': [[bool(r), c, sym(d)] for r, c, d in i._relations]})
+    return rec
+
+out = []
+for c in CALLS:
+    SENTSTR_before = None
+    try:
+        out.append(run_call(*c))
+    except Exception as e:
+        out.append({'name': c[0], 'directive': c[1], 'commit': 'probe-failed:%s:%s' % (type(e).__name__, str(e)[:100]), 'actions': [], 'intros': []})
+print('C20TABLE ' + json.dumps(out))
+"""
+
+# public directive -> name of the body (slice) in the specification table
+SLICE_OF = {'add_view_predicate': '_add_predicate', 'add_route_predicate': '_add_predicate', 'add_subscriber_predicate': '_add_predicate',
+            'add_tween': '_add_tween', 'add_static_view': 'add'}
+
+
+def probe_table(src_root):
+    """run every directive with pairwise different sentinel arguments on a real Configurator of the tree under test (child
+    interpreter), commit, and read what the pending actions carried: per call the actions (discriminator, order, whether the
+    action info is the calling statement, which introspectables) and per introspectable category / discriminator / title /
+    type name / every key with its value / the recorded relations — values written symbolically: `$p` = the very object or
+    string passed as parameter `p`, `${p}` inside a string, `<Type>` for objects the directive made itself.
+    -> (status, [call records]); status != 'ok' when the probe cannot run (the obligation then fails: closed)"""
+    import json, subprocess, sys
+    env = dict(os.environ)
+    env['PYTHONPATH'] = os.path.abspath(src_root) + os.pathsep + env.get('PYTHONPATH', '')
+    env['PYTHONWARNINGS'] = 'ignore'
+    try:
+        p = subprocess.run([sys.executable, '-c', PROBE_TABLE], env=env, stdout=subprocess.PIPE, stderr=subprocess.PIPE, timeout=300)
+        line = [l for l in p.stdout.decode(errors='replace').splitlines() if l.startswith('C20TABLE ')]
+        if p.returncode != 0 or not line:
+            raise RuntimeError('exit %s: %s' % (p.returncode, p.stderr.decode(errors='replace')[-200:]))
+        return 'ok', json.loads(line[-1][len('C20TABLE '):])
+    except Exception as e:
+        return 'probe-failed:%s' % str(e)[:160], []
+
+
+def lean_probe_table(name, table):
+    L = ['def %s : List PCall := [' % name]
+    rows = []
+    for r in table:
+        acts = lean_list(['(%s, %s, %s, %s)' % (lean_str(a[0]), lean_str(a[1]), 'true' if a[2] else 'false', '[' + ', '.join(str(i) for i in a[3]) + ']') for a in r['actions']])
+        intros = []
+        for i in r['intros']:
+            keys = lean_list(['(%s, %s)' % (lean_str(k), lean_str(v)) for k, v in i['keys']])
+            rels = lean_list(['(%s, %s, %s)' % ('true' if x[0] else 'false', lean_str(x[1]), lean_str(x[2])) for x in i['rels']])
+            intros.append('\n      { category := %s, discr := %s, title := %s, typeName := %s,\n        keys := %s,\n        rels := %s }' % (
+                lean_str(i['category']), lean_str(i['discr']), lean_str(i['title']), lean_str(i['typeName']), keys, rels))
+        rows.append('  { name := %s, slice := %s, commit := %s,\n    actions := %s,\n    intros := %s }' % (
+            lean_str(r['name']), lean_str(SLICE_OF.get(r['directive'], r['directive'])), lean_str(r['commit']), acts, lean_list(intros)))
+    L.append(',\n'.join(rows))
+    L.append(']')
+    return '\n'.join(L)
+
+
 def doc_categories(src_root):
     """the category headings of the section "Pyramid Introspection Categories" of docs/narr/introspector.rst: a line
     ``name`` at column 0 followed by a blank line and an indented body.  -> (status, [names]); status is not 'ok' when the
@@ -737,7 +1002,13 @@ def doc_categories(src_root):
 
 
 def generate(src_root):
-    ds = find_directives(src_root)
+    # the AST read of the directive bodies is kept as information only: no obligation rests on it any more
+    try:
+        ds = find_directives(src_root)
+        ast_note = 'ok'
+    except Exception as e:
+        ds, ast_note = [], 'ast-read-failed:%s' % str(e)[:120]
+    pstatus, ptable = probe_table(src_root)
     ff = flag_facts(src_root)
     dstatus, dnames = doc_categories(src_root)
     L = ['import PyramidModel.Lemmas.IntrospectTable',
@@ -745,10 +1016,14 @@ def generate(src_root):
          'namespace Pyr.Gen.C20',
          'open Pyr.Introspect',
          '',
-         '/-- the introspection slice of every directive that builds an introspectable -/',
+         '/-- (information only, no obligation) the AST slice of every directive that builds an introspectable: %s -/' % ast_note,
          'def directives : List GDirective := [',
          ',\n'.join(d.lean() for d in ds),
          ']',
+         '',
+         '/-- what every directive records, probed on the running code (see extract/c20.py: PROBE_TABLE) -/',
+         'def probeStatus : String := %s' % lean_str(pstatus),
+         lean_probe_table('probeTable', ptable),
          '',
          '/-- docs/narr/introspector.rst, section "Pyramid Introspection Categories": was it parsed, and its headings -/',
          'def docStatus : String := %s' % lean_str(dstatus),
@@ -773,7 +1048,9 @@ def generate(src_root):
                     'keys': sum(len(d.keys) for d in ds), 'relations': sum(len(d.rels) for d in ds),
                     'actions': sum(len(d.acts) for d in ds), 'defs': sum(len(d.defs) for d in ds),
                     'unknown': [d.name + ': ' + u for d in ds for u in d.unknown], 'flags': ff,
-                    'doc_status': dstatus, 'doc_categories': len(dnames)})
+                    'doc_status': dstatus, 'doc_categories': len(dnames), 'ast_read': ast_note,
+                    'probe_status': pstatus, 'probe_calls': len(ptable), 'probe_introspectables': sum(len(r['intros']) for r in ptable),
+                    'probe_keys': sum(len(i['keys']) for r in ptable for i in r['intros'])})
     return {'PyramidModel/Gen/C20.lean': '\n'.join(L)}
 
 
